@@ -77,6 +77,23 @@ def forbidsTwo (op : CntOp) (k : Nat) : Bool :=
 def handleC15 (fields : List String) : Verdict :=
   match fields with
   | "unwritable" :: rest => handleUnwritable "n_queens_gen" rest
+  | ["head", n, cls, cells, tails] =>
+    -- the first three constraint lines of a board too large to wait for: the model's first three lists
+    -- (`Queens.diag1a`: i + j (n + 1) for j < n - i, `<= 1`)
+    match n.toNat? with
+    | none => Verdict.badLine "bad n"
+    | some n =>
+      if cls != "ok" then
+        { modelOk := false, modelOut := "ok", oracle := some s!"n_queens_gen -n {n} did not write its first lists ({cls})" } else
+      let want := (List.range 3).map (fun i => (List.range (n - i)).map (fun j => i + j * (n + 1)))
+      let got := ((cells.splitOn ";").map (fun l => ((l.splitOn " ").filter (· ≠ "")).filterMap (·.toNat?)))
+      let tailsOk := (tails.splitOn ";").all (fun t => t == "<= 1 &")
+      let same := got == want && tailsOk
+      -- the property's side: cells of the board, pairwise on one diagonal (a constraint that holds for every placement)
+      let sound := got.all (fun l => l.all (· < n * n) &&
+        (l.zip l.tail).all (fun (a, b) => a < b && (b / n - a / n == b % n - a % n) && b / n > a / n))
+      { modelOk := same, modelOut := s!"{want.map (·.length)} cells", nontrivial := true,
+        oracle := if sound && tailsOk then none else some s!"one of the first lists for n = {n} is not an at-most-one over cells of one diagonal of the board" }
   | ["text", n, version, bytes] =>
     -- the bytes of the output against the text model (`Queens.text`): a recorded tie, not a verdict —
     -- the property is decided on the parsed tree; `Thm/C15T` speaks about the current code while they agree
@@ -437,6 +454,18 @@ def vertexIndex (name : String) : Option Nat :=
 def handleC18 (fields : List String) : Verdict :=
   match fields with
   | "unwritable" :: rest => handleUnwritable "random_graph_gen" rest
+  | ["gencolors", v, e, u, _k, cls] =>
+    -- a generation request together with --colors: it can be met exactly when E candidates exist
+    match v.toNat?, e.toNat? with
+    | some v, some e =>
+      let cands := (Graph.candidates v (u == "1")).length
+      let feasible := e ≤ cands
+      let o := if cls == "panic" || cls == "signal" then some s!"the tool crashed ({cls})"
+        else if feasible && cls != "ok" then some s!"a request that can be met ({e} of {cands} possible edges, with --colors) was refused"
+        else if !feasible && cls == "ok" then some s!"{e} edges were asked of a graph that has only {cands}; the tool did not refuse (with --colors)"
+        else none
+      { modelOk := (cls == "ok") == feasible, modelOut := if feasible then "ok" else "refused", oracle := o, nontrivial := true }
+    | _, _ => Verdict.badLine "unreadable gencolors line"
   | ["gen", _, _, _, _, "ok", "UNREADABLE"] =>
     { modelOk := false, modelOut := "an edge list", oracle := some "the output is not an edge list of the requested format" }
   | ["read", u, rawHex, cls, outHex] =>
